@@ -729,3 +729,41 @@ func (BackgroundFirst) Pick(n int, what string) int { return 0 }
 
 //go:norace
 func sortInts(a []int) { sort.Ints(a) }
+
+// CurrentIsApp reports whether the running thread is an application (harness) thread.
+//
+//go:norace
+func CurrentIsApp() bool {
+	e := cur
+	return e == nil || e.cur == nil || e.cur.app
+}
+
+// CurrentID returns the id of the running thread (-1 outside an execution).
+//
+//go:norace
+func CurrentID() int {
+	e := cur
+	if e == nil || e.cur == nil {
+		return -1
+	}
+	return e.cur.id
+}
+
+// AcquireFinished makes the calling (harness) thread happen-after every thread
+// that has already finished, as if it had joined each of them. Harnesses call
+// it after the scenario is over and before evaluating the oracle on data
+// recorded by goroutines they could not Join (goroutines the code under test
+// started). It adds edges only into the caller, after the fact.
+//
+//go:norace
+func AcquireFinished() {
+	e := cur
+	if e == nil || e.aborting {
+		return
+	}
+	for _, t := range e.threads {
+		if t.state == stDone {
+			raceAcquire(unsafe.Pointer(t))
+		}
+	}
+}
